@@ -614,6 +614,7 @@ DEVIATIONS = OrderedDict([
     ('strip_spaces_only', 'C01-STRIP-ONLY-SPACES'),
     ('dec_param_text', 'C01-DECIMAL-PARAM-TEXT-COMPARE'),
     ('date_param_delta', 'C01-DATE-PARAM-TIMEDELTA-TEXT'),
+    ('notin_subquery_nulls', 'C01-NOT-IN-SUBQUERY-IGNORES-NULLS'),
 ])
 
 
@@ -909,6 +910,15 @@ class Interp(object):
 
     def ev_Attribute(self, node, env):
         base = self.ev(node.value, env)
+        if base is None and (self.null_item_ok or (self.o2o_active and 'o2o_left_join' in self.dev)):
+            t = self.stype(node.value)
+            if isinstance(t, tuple) and t[0] == 'ent':
+                h = self.schema.ents[t[1]].all_hybrids.get(node.attr)
+                if h is not None and h.kind == 'property':
+                    saved = self.tenv
+                    self.tenv = dict(saved, self=('ent', t[1]))
+                    try: return self.ev(h.tree, {'self': None})
+                    finally: self.tenv = saved
         return self.getattr(base, node.attr, node, env)
 
     def getattr(self, base, name, node=None, env=None):
@@ -958,7 +968,12 @@ class Interp(object):
     def ev_UnaryOp(self, node, env):
         if isinstance(node.op, ast.Not):
             saved, self.strict = self.strict, False
-            try: return self.t_not(self.truth(self.ev(node.operand, env)))
+            try:
+                o = node.operand
+                if isinstance(o, ast.Compare) and len(o.ops) == 1 and isinstance(o.ops[0], ast.In):
+                    # pony turns not (x in S) into x NOT IN S (same rendering as the `not in` operator)
+                    return self.compare(ast.NotIn(), self.ev(o.left, env), self.ev(o.comparators[0], env), o.left, o.comparators[0], env)
+                return self.t_not(self.truth(self.ev(node.operand, env)))
             finally: self.strict = saved
         v = self.ev(node.operand, env)
         if v is None: return self.nullprop()
@@ -1086,6 +1101,14 @@ class Interp(object):
             if a is U or b is U: raise Unsupported('is on UNKNOWN')
             return r if opn == 'Is' else not r
         if opn in ('In', 'NotIn'):
+            if opn == 'NotIn' and isinstance(b, list) and rnode is not None and (isinstance(rnode, ast.GeneratorExp) or (
+                    isinstance(rnode, ast.Call) and isinstance(rnode.func, ast.Name) and rnode.func.id == 'select')) \
+                    and any(i is None for i in b):
+                # pony renders `x not in (subquery)` with IS NOT NULL conditions on the subquery columns
+                nn = [i for i in b if i is not None]
+                if not nn and a is None:
+                    self.sites.add('notin_subquery_nulls')
+                    if 'notin_subquery_nulls' in self.dev: return True
             r = self.contains(a, b, rnode)
             return r if opn == 'In' else self.t_not(r)
         if a is U or b is U: raise Unsupported('comparison of UNKNOWN')
@@ -1099,6 +1122,7 @@ class Interp(object):
             if opn == 'NotEq': return self.t_or([self.compare(ast.NotEq(), x, y) for x, y in zip(a, b)])
             raise Unsupported('tuple ordering')
         if a is None or b is None: return U
+        if isinstance(a, GroupConcat) or isinstance(b, GroupConcat): raise NoReference('comparison of a group_concat value')
         if isinstance(a, (list, set)) or isinstance(b, (list, set)): raise Unsupported('collection comparison')
         if isinstance(a, MObj) or isinstance(b, MObj):
             if not (isinstance(a, MObj) and isinstance(b, MObj)): raise NoReference('entity vs scalar')
@@ -1190,6 +1214,10 @@ class Interp(object):
                     and not self.is_external(node):
                 self.sites.add('slice_stop_m1')
                 if 'slice_stop_m1' in self.dev: return s
+            elif ok1 and not ok2 and sl.upper is not None and self.is_external(node.value):
+                # constant string, constant start, expression stop: folded with the sentinel stop -1
+                self.sites.add('slice_stop_m1')
+                if 'slice_stop_m1' in self.dev: return s[(v1 or 0):-1]
             return s[lo:hi]
         i = self.ev(sl, env)
         if i is None or s is None: return self.nullprop()
@@ -1331,7 +1359,7 @@ class Interp(object):
                 if isinstance(v, bool): v = int(v)
                 if isinstance(v, float): self.row_flag = True
                 parts.append(v)
-            return GroupConcat(parts, ',' if sep is None else sep)
+            return GroupConcat(parts, ',' if sep is None else sep) if parts else None
         raise Unsupported('aggregate ' + name)
 
     def call_func(self, name, node, env):
@@ -1971,11 +1999,17 @@ def scan_shapes(it, tree):
                     for g in child.generators:
                         if isinstance(g.iter, ast.Attribute) and False: pass
                     if inner & outer: sites.add('alias_clash')
+                scope_vars.append(own)
                 visit(child, t2, depth + 1)
+                scope_vars.pop()
             elif isinstance(child, ast.Lambda):
                 t2 = dict(tenv)
                 own = {a.arg for a in child.args.args}
                 coll_ent = None
+                if depth >= 1 and isinstance(node, ast.Call) and isinstance(node.func, ast.Attribute):
+                    # a collection of a variable bound two or more levels up, iterated inside an intermediate subquery
+                    rootv = it._root_name(node.func.value)
+                    if rootv is not None and rootv in tenv and rootv not in scope_vars[-1]: sites.add('alias_clash')
                 if isinstance(node, ast.Call) and isinstance(node.func, ast.Attribute):
                     saved = it.tenv; it.tenv = tenv
                     try: ct = it.stype(node.func.value)
@@ -1986,7 +2020,9 @@ def scan_shapes(it, tree):
                 inner, outer = joins(child, own, t2)
                 if coll_ent: inner.add(coll_ent)
                 if inner & outer: sites.add('alias_clash')
+                scope_vars.append(own)
                 visit(child, t2, depth + 1)
+                scope_vars.pop()
             else:
                 if isinstance(child, ast.Call) and isinstance(child.func, ast.Name) and child.func.id in AGGS and child.args:
                     g = child.args[0]
@@ -2000,6 +2036,7 @@ def scan_shapes(it, tree):
     saved = it.tenv; it.tenv = t0
     try: it.bind_static(tree.generators)
     finally: it.tenv = saved
+    scope_vars = [set(t0)]
     visit(tree, t0, 0)
     return sites
 
@@ -2067,6 +2104,7 @@ def reference(program, mirror, dev=()):
         elif op in ('order_by', 'sort_by'):
             rr.no_dups = False
             if not rr.aggregated: rr.order_check = make_order_check(rr, step, program)
+            if 'date_param_delta' in it.sites and 'date_param_delta' in it.dev: rr.order_check = None
             if it.dectext_projected:
                 # a TEXT-bound Decimal in the ordered projection sorts after every number in sqlite
                 rr.sites.add('dec_param_text')
